@@ -34,6 +34,7 @@ type c11Case struct {
 	Frames     []c11Frame `json:"frames"`
 	CtlWarm    int        `json:"warm"`    // bytes moved on the control tube before the junk
 	Interleave bool       `json:"interleave"` // honest control traffic continues during the junk
+	StopJunk   []c11Frame `json:"stopjunk"`   // frames injected WHILE the muxer is stopping (the peer withholds its answers, keeping the stopping window open)
 }
 
 var c11LenFields = []int{-1, -2, -3, 0, 0x7FFF, 0x8000, 0xFFF3, 0xFFF4, 0xFFFF, 1}
@@ -193,9 +194,28 @@ func c11Scenario(c c11Case, v *vlib.Verdict) {
 	if !exchange(1000, "after-junk") {
 		return
 	}
-	// stop: must return within 10 virtual seconds
+	// stop: must return within 10 virtual seconds, also when frames keep arriving while it is stopping
+	if len(c.StopJunk) > 0 {
+		// the peer stops answering (FINs stay unacknowledged), which keeps M in the stopping state until its forced close
+		p.Net.Decide = func(dir, idx int, pkt []byte, now time.Duration) (memconn.Decision, bool) {
+			if dir == 0 {
+				return memconn.Decision{Drop: true}, true
+			}
+			return memconn.Decision{}, false
+		}
+	}
 	done := make(chan struct{})
 	go func() { M.Stop(); close(done) }()
+	for _, f := range c.StopJunk {
+		time.Sleep(time.Duration(20+f.GapMs) * time.Millisecond)
+		if c11TargetsControl(f, ctlID) {
+			f.Tube = int(ctlID) + 2
+		}
+		p.Net.B.Inject(c11Bytes(f, ctlID))
+	}
+	if len(c.StopJunk) > 0 {
+		v.Label("frames-during-stop")
+	}
 	select {
 	case <-done:
 	case <-time.After(10 * time.Second):
@@ -247,6 +267,18 @@ func c11Gen(t *rapid.T) c11Case {
 		Frames:     rapid.SliceOfN(c11FrameGen(), 1, n).Draw(t, "frames"),
 		CtlWarm:    rapid.SampledFrom([]int{0, 10, 40000}).Draw(t, "warm"),
 		Interleave: rapid.Bool().Draw(t, "interleave"),
+	}
+	if rapid.IntRange(0, 2).Draw(t, "withStopJunk") == 0 {
+		c.StopJunk = rapid.SliceOfN(rapid.Custom(func(t *rapid.T) c11Frame {
+			f := c11FrameGen().Draw(t, "sf")
+			if rapid.Bool().Draw(t, "forceREQ") {
+				f.Flags |= 1 << REQIdx
+				f.Short = -1
+				f.LenKind = 0
+				f.Payload = 0
+			}
+			return f
+		}), 1, 12).Draw(t, "stopjunk")
 	}
 	// process-killing known findings are excluded by construction while they are open
 	if vlib.KnownOpen("panic:tubes.fromBytes:slice-bounds") {
